@@ -1,45 +1,276 @@
 """C14 - encoders/decoders are mutual inverses and agree with their standards (mode B).
-TLC enumerates the corpus from generator specs and computes every expectation from the TLA+ reference;
-the real functions (ASan build, exact-size buffers) must return exactly that."""
+
+Seven generator specs (specs/text/Gen*.tla) enumerate the corpus; TLC checks the reference's own algebra on every
+state (inverse laws, length laws, catalogue check values, chain/residue laws) and prints, per state, the input
+together with every expected output computed from the TLA+ reference.  The real functions (driver
+harness/codec_drv.c, rebuilt from common.REPO in several build configurations, ASan/UBSan on exact-size heap
+blocks in the first one) must return exactly those bytes, values and reported lengths.
+Python only renders abstract values to hex, runs the driver and compares."""
+import threading, time
 from rig import common
 from rig.common import hexs, unhex, kv
 
-def base64_part(ctx, exe):
-    cfg = "GenBase64.cfg" if ctx.quick else "GenBase64_thorough.cfg"
-    r = common.tlc("GenBase64", cfg=cfg, workers=1, coverage=True, timeout=1200)
-    ctx.tlc_stats(r, "GenBase64/" + cfg)
-    if r.rc != 0:
-        raise common.Infra("reference algebra failed inside TLC (spec bug, not a code verdict): %s\n%s" % (r.violation, r.out[-2000:]))
-    cases = common.tlc_printed_json(r.out)
-    if len(cases) != r.distinct:
-        raise common.Infra("corpus emission lost cases: %d printed vs %d distinct" % (len(cases), r.distinct))
-    lines = []; meta = []
+SRC = ["/verif/harness/codec_drv.c", "src/utils/buf_str.c", "src/utils/xml.c", "src/proto/http.c"]
+# The parse macros accumulate in the (signed) result type; at the type minimum that wraps through signed
+# overflow / a left shift into the sign bit.  The VALUE is what C14 speaks about, so those two UBSan checks are
+# off and the value is compared in every build configuration instead (see ctx.assumptions).
+UB_OFF = ["-fno-sanitize=signed-integer-overflow,shift"]
+BUILDS_QUICK = [("clang-asan-O1", dict(compiler="clang", san="asan", opt="-O1", flags=UB_OFF)),
+                ("gcc-O2", dict(compiler="gcc", san=None, opt="-O2"))]
+BUILDS_THOROUGH = BUILDS_QUICK + [("clang-O2", dict(compiler="clang", san=None, opt="-O2")),
+                                  ("gcc-asan-O0", dict(compiler="gcc", san="asan", opt="-O0", flags=UB_OFF))]
+MAX_PER_KEY = 3
+
+class Part:
+    """one codec family: cases -> driver lines with expectations -> comparison"""
+    def __init__(self, ctx, name):
+        self.ctx = ctx; self.name = name; self.lines = []; self.meta = []; self.nontriv = set()
+    def case(self, line, expect, keybase, cls=None, nontrivial=True):
+        """expect: dict of fields the answer must carry: rc, n, out (bytes or tuple of acceptable bytes), v, v2"""
+        self.lines.append(line); self.meta.append((expect, keybase, cls))
+        if nontrivial: self.nontriv.add(line)
+
+def symptom(expect, ans, cls=None):
+    """classification of HOW an answer differs (for the failure key only; never decides pass/fail)"""
+    if ans.get("guard", "ok") != "ok":     # store outside the output block (non-ASan builds: margin check)
+        return "short-by-one" if (cls == "pow10" and ans["guard"] == "lo") else "write-outside-buffer-" + ans["guard"]
+    if "n" in expect and "n" in ans and ans.get("rc") == "0" and int(ans["n"]) == expect["n"] - 1:
+        return "short-by-one"
+    return "wrong-result"
+
+def matches(expect, f):
+    if f.get("guard", "ok") != "ok": return False
+    if "rc" in expect and int(f["rc"]) != expect["rc"]: return False
+    if "n" in expect and int(f["n"]) != expect["n"]: return False
+    if "out" in expect:
+        acc = expect["out"] if isinstance(expect["out"], tuple) else (expect["out"],)
+        if unhex(f["out"]) not in acc: return False
+    for k in ("v", "v2"):
+        if k in expect and f.get(k) != expect[k]: return False
+    return True
+
+_lock = threading.Lock()
+def run_part(ctx, part, exes, fails):
+    local = {}; nev = 0
+    for bname, exe in exes:
+        res = common.batch_run(exe, part.lines, timeout=600)
+        for ln, (expect, keybase, cls), a in zip(part.lines, part.meta, res):
+            nev += 1
+            if isinstance(a, dict):
+                k = a["crash"]
+                sym = "short-by-one" if (cls == "pow10" and k[0] == "heap-buffer-overflow-WRITE") else "%s:%s" % (k[0], k[1])
+                key = "%s:%s" % (keybase, sym)
+                detail = "build %s\ncase %s\n%s" % (bname, ln, a["raw"][-1500:])
+            else:
+                op, f = kv(a)
+                if matches(expect, f): continue
+                key = "%s:%s" % (keybase, symptom(expect, f, cls))
+                detail = "build %s\ncase %s\nexpected %s\ngot      %s" % (bname, ln, fmt_expect(expect), a)
+            local.setdefault(key, []).append((detail, {"case": ln, "build": bname}))
+    with _lock:
+        for k, v in local.items(): fails.setdefault(k, []).extend(v)
+        ctx.add(evaluations=nev, distinct_nontrivial=len(part.nontriv))
+        ctx.cov.setdefault("cases_per_family", {})[part.name] = len(part.lines)
+
+def fmt_expect(e):
+    d = {}
+    for k, v in e.items():
+        if isinstance(v, tuple): d[k] = "|".join(hexs(x) for x in v)
+        elif isinstance(v, (bytes, bytearray)): d[k] = hexs(v)
+        else: d[k] = v
+    return " ".join("%s=%s" % kv_ for kv_ in d.items())
+
+# ------------------------------------------------------------------ case construction per family
+def base64_cases(ctx, cases):
+    p = Part(ctx, "base64")
     for c in cases:
-        src = bytes(c["in"]); enc = bytes(c["enc"])
-        lines.append("b64enc %s %d" % (hexs(src), len(enc) + 1)); meta.append(("enc", src, enc))
-        lines.append("b64dec %s %d" % (hexs(enc), len(enc) + 4)); meta.append(("dec", enc, src))
-        junk = b"\n" + enc[:2] + b" \r" + enc[2:] + b"\t"
-        lines.append("b64decfmt %s %d" % (hexs(junk), len(junk) + 4)); meta.append(("decfmt", junk, src))
-    res = common.batch_run(exe, lines)
-    nontriv = set()
-    for ln, (kind, inp, exp), a in zip(lines, meta, res):
-        ctx.add(evaluations=1)
-        if isinstance(a, dict):
-            k = a["crash"]; ctx.fail("base64:%s:%s:%s" % (kind, k[0], k[1]), a["raw"], {"case": ln}); continue
-        op, f = kv(a)
-        out = unhex(f["out"])
-        if int(f["rc"]) != 0 or out != exp or int(f["n"]) != len(exp):
-            ctx.fail("base64:%s:wrong-result" % kind, "case %s\nexpected %s\ngot %s" % (ln, hexs(exp), a), {"case": ln})
-        if len(inp) > 0: nontriv.add((kind, inp))
-    ctx.add(distinct_nontrivial=len(nontriv))
-    ctx.add(samples=[{"op": "b64enc", "in": hexs(bytes(cases[7]["in"])), "expect": bytes(cases[7]["enc"]).decode()}])
+        src = bytes(c["in"]); enc = bytes(c["enc"]); encnp = bytes(c["encnp"])
+        nt = len(src) > 0
+        # capacity = text + terminating NUL (the NUL at dst[reported] is C12's subject, not C14's)
+        p.case("b64enc %s %d" % (hexs(src), len(enc) + 1), dict(rc=0, n=len(enc), out=enc), "base64:encode", nontrivial=nt)
+        p.case("b64dec %s %d" % (hexs(enc), len(enc) + 4), dict(rc=0, n=len(src), out=src), "base64:decode", nontrivial=nt)
+        if encnp != enc:
+            p.case("b64dec %s %d" % (hexs(encnp), len(enc) + 4), dict(rc=0, n=len(src), out=src), "base64:decode-unpadded")
+        for j in ("j1", "j2", "j3"):
+            t = bytes(c[j])
+            p.case("b64decfmt %s %d" % (hexs(t), len(t) + 4), dict(rc=0, n=len(src), out=src), "base64:decode_fmt:" + j)
+        t = bytes(c["j1"]); syms = bytes(c["syms"])
+        p.case("b64encopy %s %d" % (hexs(t), len(t) + 1), dict(rc=0, n=len(syms), out=syms), "base64:en_copy")
+    return p
+
+def hex_cases(ctx, cases):
+    p = Part(ctx, "hex")
+    for c in cases:
+        src = bytes(c["in"]); hl = bytes(c["hexl"]); hu = bytes(c["hexu"]); hm = bytes(c["hexm"])
+        # either letter case is "the standard" (RFC 4648 base16 is case-insensitive on decode)
+        p.case("bin2hex %s %d" % (hexs(src), len(hl) + 1), dict(rc=0, n=len(hl), out=(hl, hu)), "hex:bin2hex")
+        for nm, t in (("lower", hl), ("upper", hu), ("mixed", hm)):
+            p.case("hex2bin %s %d" % (hexs(t), len(src)), dict(rc=0, n=len(src), out=src), "hex:hex2bin:" + nm)
+    return p
+
+def xml_cases(ctx, cases):
+    p = Part(ctx, "xml")
+    for c in cases:
+        src = bytes(c["in"]); enc = bytes(c["enc"]); dec = bytes(c["dec"])
+        cap = len(src) + len(enc) + 16       # generous: mem_replace_arr's capacity test is C12's subject
+        nt = any(ch in b"'\"&<>" for ch in src)
+        p.case("xmlenc %s %d" % (hexs(src), cap), dict(rc=0, n=len(enc), out=enc), "xml:encode", nontrivial=nt)
+        p.case("xmldec %s %d" % (hexs(enc), cap), dict(rc=0, n=len(src), out=src), "xml:decode-of-encoded", nontrivial=nt)
+        if dec != src:
+            p.case("xmldec %s %d" % (hexs(src), cap), dict(rc=0, n=len(dec), out=dec), "xml:decode")
+    return p
+
+def url_cases(ctx, cases):
+    p = Part(ctx, "url")
+    for c in cases:
+        src = bytes(c["in"])
+        seen = set()
+        for nm in ("minu", "minl", "allu", "alll"):
+            t = bytes(c[nm])
+            if t in seen: continue
+            seen.add(t)
+            p.case("urldec %s %d" % (hexs(t), len(src) + 1), dict(rc=0, n=len(src), out=src),
+                   "url:decode:" + nm, nontrivial=(b"%" in t))
+    return p
+
+def limbs_hex(v):          # four 16-bit limbs, least significant first -> 16 hex digits
+    return "%04x%04x%04x%04x" % (v[3], v[2], v[1], v[0])
+
+def num_cases(ctx, cases):
+    p = Part(ctx, "num")
+    for c in cases:
+        t = c["t"]; text = bytes(c["text"]); v = limbs_hex(c["v"]); cls = c["cls"]; nm = c["name"]
+        for f in (0, 1):
+            # capacity = text + NUL, which is what the macros themselves demand ((_len + 1) > _size -> ENOSPC)
+            p.case("numfmt %s %d %d %d" % (v, len(text) + 1, t, f), dict(rc=0, n=len(text), out=text),
+                   "num2str:" + cls, cls=cls)
+            p.case("numparse %s 0 %d %d" % (hexs(text), t, f), dict(v=v), "str2num:" + cls, cls=cls)
+            if c["signed"] and not c["neg"]:
+                p.case("numparse %s 0 %d %d" % (hexs(b"+" + text), t, f), dict(v=v), "str2num:plus-sign:" + cls, cls=cls)
+            for hn in ("hexl", "hexu"):
+                ht = bytes(c[hn])
+                if hn == "hexu" and ht == bytes(c["hexl"]): continue
+                p.case("numparseh %s 0 %d %d" % (hexs(ht), t, f), dict(v=v), "strh2num:" + cls, cls=cls)
+    return p
+
+TBL = ["tbl256_04c11db7", "tbl_edb88320", "tbl_1edc6f41", "tbl_a833982b", "tbl256_814141ab"]
+def w32(w): return "%016x" % (w[0] * 65536 + w[1])     # << hi, lo >> -> driver's v= field
+
+def crc_cases(ctx, cases):
+    p = Part(ctx, "crc32")
+    for c in cases:
+        d = bytes(c["in"]); n = len(d)
+        for k in range(5):
+            for j, init in enumerate(c["inits"]):
+                exp = w32(c["raw"][k][j]); ih = "%04x%04x" % (init[0], init[1])
+                for var, vn in ((4, "nibble"), (8, "byte"), (0, "auto")):
+                    p.case("crcraw %s 0 %d %d %s" % (hexs(d), k, var, ih), dict(v=exp),
+                           "crc32:%s:%s" % (TBL[k], vn), nontrivial=n > 0)
+        for m, name in enumerate(c["names"]):
+            exp = w32(c["model"][m])
+            for split in sorted({0, 1, n // 2, max(n - 1, 0), n} & set(range(n + 1))):
+                p.case("crcname %s 0 %d %d" % (hexs(d), m, split), dict(v=exp, v2=exp), "crc32:" + name, nontrivial=n > 0)
+    return p
+
+FAMILIES = [  # generator module, key field for de-duplication, case builder, TLC stack
+    ("GenBase64", "in", base64_cases, "256m"),
+    ("GenHex", "in", hex_cases, "256m"),
+    ("GenXml", "in", xml_cases, "256m"),
+    ("GenUrl", "in", url_cases, "256m"),
+    ("GenNum", None, num_cases, "256m"),
+    ("GenCrc", "in", crc_cases, "256m"),
+]
+
+def generate(ctx):
+    """run the generator specs (each single-worker because of PrintT emission), at most 4 at a time"""
+    common.tlc_workspace()
+    seed = str(ctx.seed % 65521)
+    out = {}; errs = []
+    sem = threading.Semaphore(4)
+    def job(mod, xss):
+        with sem:
+            try:
+                cfg = mod + (".cfg" if ctx.quick else "_thorough.cfg")
+                out[mod] = (cfg, common.tlc(mod, cfg=cfg, workers=1, coverage=True, timeout=3000, xss=xss,
+                                            env={"SEED": seed}))
+            except Exception as e:      # re-raised in the main thread
+                errs.append(e)
+    th = [threading.Thread(target=job, args=(m, x)) for m, _, _, x in FAMILIES]
+    for t in th: t.start()
+    for t in th: t.join()
+    if errs: raise errs[0]
+    corp = {}
+    for mod, keyf, _, _ in FAMILIES:
+        cfg, r = out[mod]
+        ctx.tlc_stats(r, "%s/%s" % (mod, cfg))
+        if r.rc != 0 or r.violation is not None:    # TLC can exit 0 after a StackOverflowError in Init
+            raise common.Infra("reference algebra failed inside TLC for %s (spec bug, not a code verdict): %s\n%s"
+                               % (mod, r.violation, r.out[-3000:]))
+        cases = common.tlc_printed_json(r.out)
+        seen = set(); uniq = []
+        for c in cases:      # a state reached twice is printed twice; states are distinct by construction
+            k = repr(c[keyf]) if keyf else repr((c["t"], c["text"]))
+            if k in seen: continue
+            seen.add(k); uniq.append(c)
+        if len(uniq) != r.distinct or r.distinct == 0:
+            raise common.Infra("corpus emission lost cases for %s: %d printed distinct vs %d distinct states"
+                               % (mod, len(uniq), r.distinct))
+        for act, (taken, _) in r.coverage.items():
+            if taken == 0 and not (mod == "GenNum" and act == "Next"):     # GenNum has no Next by design
+                raise common.Infra("vacuous generator action %s in %s" % (act, mod))
+        corp[mod] = uniq
+    return corp
 
 def run(ctx):
     ctx.level = "exploration"
     d = common.scratch()
-    exe = common.cc(["/verif/harness/codec_drv.c"], d + "/codec", compiler="clang", san="asan", hooks=False)
-    base64_part(ctx, exe)
-    ctx.cov["rule"] = ("cases are the reachable states of the generator specs (all byte strings up to the configured "
-                       "length over boundary bytes); non-trivial = non-empty input; distinct by (operation, input)")
-    ctx.assumptions += ["TLA+ reference modules under specs/text are the oracle (RFC 4648 etc.)",
-                        "memory accesses are observed by ASan/UBSan on exact-size heap blocks"]
+    builds = BUILDS_QUICK if ctx.quick else BUILDS_THOROUGH
+    exes = []; berr = []
+    def build(name, kw):
+        try: exes.append((name, common.cc(SRC, "%s/codec-%s" % (d, name), hooks=False, **kw)))
+        except Exception as e: berr.append(e)
+    bth = [threading.Thread(target=build, args=b) for b in builds]
+    for t in bth: t.start()
+    corp = generate(ctx)
+    for t in bth: t.join()
+    if berr: raise berr[0]
+    exes.sort(key=lambda e: [b[0] for b in builds].index(e[0]))
+    ctx.cov["builds"] = [b[0] for b in builds]
+    fails = {}
+    parts = []
+    for mod, _, mk, _ in FAMILIES:
+        part = mk(ctx, corp[mod]); parts.append(part)
+    # the driver runs are independent: one thread per family (<= 4 at a time)
+    sem = threading.Semaphore(4); perr = []
+    def go(part):
+        with sem:
+            try: run_part(ctx, part, exes, fails)
+            except Exception as e: perr.append(e)
+    pth = [threading.Thread(target=go, args=(p,)) for p in parts]
+    for t in pth: t.start()
+    for t in pth: t.join()
+    if perr: raise perr[0]
+    for key in sorted(fails):
+        lst = fails[key]
+        for detail, replay in lst[:MAX_PER_KEY]:
+            ctx.fail(key, detail + ("\n(%d failing cases share this key)" % len(lst)), replay)
+    ctx.cov["failing_cases_by_key"] = {k: len(v) for k, v in fails.items()}
+    b = corp["GenBase64"][min(7, len(corp["GenBase64"]) - 1)]
+    num = [c for c in corp["GenNum"] if c["cls"] == "pow10"][:2]
+    ctx.add(samples=[{"op": "b64enc", "in": hexs(bytes(b["in"])), "expect": bytes(b["enc"]).decode()}] +
+            [{"op": "numfmt", "type": c["name"], "value_hex": limbs_hex(c["v"]), "expect": bytes(c["text"]).decode()} for c in num] +
+            [{"op": "crc32b", "in": hexs(bytes(c["in"])), "expect": w32(c["model"][3])[8:]} for c in corp["GenCrc"][:1]])
+    ctx.cov["rule"] = ("cases are the reachable states of the generator specs: all byte strings up to the configured length "
+                       "over boundary bytes, every single byte value, seeded random strings, and for the ten integer types "
+                       "0/1/2, every power of ten and both neighbours, 2^k and neighbours (all minima/maxima), both signs, "
+                       "seeded random magnitudes; non-trivial = non-empty input / input containing something to translate; "
+                       "distinct by driver line (operation, input, parameters)")
+    ctx.assumptions += ["TLA+ reference modules under specs/text are the oracle (RFC 4648 base64/base16, RFC 3986 percent-"
+                        "encoding, XML 1.0 predefined entities, reveng catalogue CRC models checked against their check values)",
+                        "memory accesses are observed by ASan/UBSan on exact-size heap blocks in the *-asan-* builds",
+                        "output capacity is expected size + terminator (+ slack for xml/base64 decode): capacity edges belong to C12",
+                        "UBSan's signed-integer-overflow and shift checks are disabled: STR2SNUM/STRH2SNUM reach the type "
+                        "minimum through signed wrap-around (UB in ISO C); the parsed VALUE is compared in every build instead",
+                        "cvt_bin2hex of an empty input yields \"00\" by documented convention and cvt_hex2bin refuses empty "
+                        "input, so the empty string is outside the hex round-trip corpus",
+                        "size_t/ssize_t are 64-bit (LP64 build host)"]
